@@ -170,10 +170,11 @@ impl SkimItemReader {
                             break;
                         }
 
-                        if buffer.ends_with(&[b'\r', b'\n']) {
+                        // strip the terminator: the configured one, or CRLF when lines end with LF
+                        if line_ending == b'\n' && buffer.ends_with(&[b'\r', b'\n']) {
                             buffer.pop();
                             buffer.pop();
-                        } else if buffer.ends_with(&[b'\n']) || buffer.ends_with(&[b'\0']) {
+                        } else if buffer.ends_with(&[line_ending]) {
                             buffer.pop();
                         }
 
@@ -264,10 +265,11 @@ impl SkimItemReader {
                             break;
                         }
 
-                        if buffer.ends_with(&[b'\r', b'\n']) {
+                        // strip the terminator: the configured one, or CRLF when lines end with LF
+                        if option.line_ending == b'\n' && buffer.ends_with(&[b'\r', b'\n']) {
                             buffer.pop();
                             buffer.pop();
-                        } else if buffer.ends_with(&[b'\n']) || buffer.ends_with(&[b'\0']) {
+                        } else if buffer.ends_with(&[option.line_ending]) {
                             buffer.pop();
                         }
 
